@@ -197,8 +197,8 @@ MUTANTS = [
      "find": "            relative = posixpath.normpath(relative)",
      "repl": "            pass"},
     {"name": "marker_named_by_basename", "props": ["C05", "C06"], "file": T,               # d43d43e
-     "find": "        marker_path = f\"{_INFLIGHT_PATH}/{marker_name}.{uuid.uuid4().hex[:8]}.inflight\"",
-     "repl": "        marker_path = f\"{_INFLIGHT_PATH}/{marker_name}.inflight\""},
+     "find": "        marker_path = f\"{_INFLIGHT_PATH}/{uuid.uuid4().hex}.inflight\"",
+     "repl": "        marker_path = _INFLIGHT_PATH + \"/\" + file_path.rsplit(\"/\", 1)[-1] + \".inflight\""},
     {"name": "schema_cache_by_id_and_no_commit_revalidation", "props": ["C18"], "file": D,  # ded9070 + 989e126
      "find": "        cache_key = (\n            iceberg_schema.schema_id,\n            json.dumps(iceberg_schema.fields, sort_keys=True, default=str),\n        )",
      "repl": "        cache_key = iceberg_schema.schema_id",
@@ -214,7 +214,7 @@ REVERTS = [
      ("0ad9135", ["C09"]), ("6e33d4e", ["C10"]),  
     ("e7f960c", ["C20"]),  ("4f0c1c6", ["C10"]),  
     ("fd90d27", ["C04"]),   ("ed11f52", ["C14", "C07"]), 
-    ("fc4462d", ["C15"]), ("b7a2891", ["C11"]), ("e336573+3125173", ["C11"]), ("b7a2891+bc34c9c", ["C11"]),  ("4b15b99", ["C19"]), ("f85e07b+e81c9c4", ["C16"]), ("09d4462", ["C11"]),  ("8acb033", ["C10"]), ("38d48b4", ["C14"]), ("c16fd62", ["C04"]), ("0034e06", ["C04"]), ("470f494", ["C08"]),
+    ("fc4462d", ["C15"]), ("7c8d896", ["C06"]), ("b7a2891", ["C11"]), ("e336573+3125173", ["C11"]), ("b7a2891+bc34c9c", ["C11"]),  ("4b15b99", ["C19"]), ("f85e07b+e81c9c4", ["C16"]), ("09d4462", ["C11"]),  ("8acb033", ["C10"]), ("38d48b4", ["C14"]), ("c16fd62", ["C04"]), ("0034e06", ["C04"]), ("470f494", ["C08"]),
 ]
 
 
